@@ -1,21 +1,24 @@
 #!/usr/bin/env python3-vt
-"""tools/reeval_seeds.py [seed id ...]: re-evaluate all rules against each filed seeded change (scratch worktree of /repo HEAD + patch) and update meta.json"""
+"""tools/reeval_seeds.py [seed id ...]: re-evaluate all rules against each filed seeded change (scratch copy of /repo/netqasm + patch, 16 workers) and update meta.json"""
 import json, os, shutil, subprocess, sys, tempfile
+from concurrent.futures import ProcessPoolExecutor
 ROOT = os.path.dirname(os.path.dirname(os.path.abspath(__file__)))
 sys.path.insert(0, ROOT)
-from nqsa.cli import evaluate, CLAIMED
-from nqsa import report
-seeds = sys.argv[1:] or sorted(os.listdir(os.path.join(ROOT, "seeded")))
-missed = 0
-for sid in seeds:
+
+
+def one(sid):
+    from nqsa.cli import evaluate, CLAIMED
+    from nqsa import report
     d = os.path.join(ROOT, "seeded", sid)
     if not os.path.exists(os.path.join(d, "patch.diff")):
-        continue
+        return None
     meta = json.load(open(os.path.join(d, "meta.json")))
-    scratch = tempfile.mkdtemp(prefix="reseed-"); os.rmdir(scratch)
-    subprocess.check_call(["git", "-C", "/repo", "worktree", "add", "-q", "--detach", scratch, "HEAD"])
+    scratch = tempfile.mkdtemp(prefix="reseed-")
     try:
-        subprocess.check_call(["git", "apply", os.path.join(d, "patch.diff")], cwd=scratch)
+        shutil.copytree("/repo/netqasm", os.path.join(scratch, "netqasm"), ignore=shutil.ignore_patterns("__pycache__", "*.pyc"))
+        r = subprocess.run(["git", "apply", "--exclude=demo.py", os.path.join(d, "patch.diff")], cwd=scratch, capture_output=True, text=True)
+        if r.returncode != 0:
+            return (sid, None, "patch no longer applies")
         fired, errors = {}, {}
         for p in CLAIMED:
             ctx = evaluate(p, "quick", root=scratch)
@@ -28,9 +31,19 @@ for sid in seeds:
         meta["detected_by_target_property"] = meta["property"] in fired
         meta["detected_by_any"] = bool(fired)
         json.dump(meta, open(os.path.join(d, "meta.json"), "w"), indent=1)
-        if not meta["detected_by_target_property"]:
-            missed += 1
-        print(f"{sid}: target={meta['detected_by_target_property']} fired={ {k: len(v) for k, v in fired.items()} } first={[v[0] for v in fired.values()][:2]} errors={ {k: v[0][:80] for k, v in errors.items()} }")
+        return (sid, meta["detected_by_target_property"], f"fired={ {k: len(v) for k, v in fired.items()} } first={[v[0] for v in fired.values()][:2]} errors={ {k: v[0][:80] for k, v in errors.items()} }")
     finally:
-        subprocess.call(["git", "-C", "/repo", "worktree", "remove", "--force", scratch]); shutil.rmtree(scratch, ignore_errors=True)
-print("missed by target property:", missed)
+        shutil.rmtree(scratch, ignore_errors=True)
+
+
+if __name__ == "__main__":
+    seeds = sys.argv[1:] or sorted(os.listdir(os.path.join(ROOT, "seeded")))
+    missed = 0
+    with ProcessPoolExecutor(max_workers=16) as ex:
+        for res in ex.map(one, seeds):
+            if res is None:
+                continue
+            sid, ok, detail = res
+            missed += ok is False
+            print(f"{sid}: target={ok} {detail}")
+    print("missed by target property:", missed)
